@@ -587,8 +587,21 @@ func (e *specEnv) evalCall(s *SpecExpr) (Term, types.Type) {
 			}
 			return eq(a, b), boolT
 		case "string", "int", "int64", "rune", "byte", "uint64", "uint":
-			v, _ := e.eval(args[0])
+			v, vt := e.eval(args[0])
+			if fn.Name == "string" && v.Sort == SInt {
+				return x.ctx.App("runeToString", SStr, v), strT
+			}
+			if fn.Name == "string" && v.Sort != SStr {
+				_ = vt
+				return x.ctx.App("bytesToString_"+sortKey(v.Sort), SStr, v), strT
+			}
 			return v, x.resolveType(e.pkg, fn.Name)
+		case "second", "third":
+			idx := 1
+			if fn.Name == "third" {
+				idx = 2
+			}
+			return e.nthResult(args[0], idx)
 		case "exited":
 			return e.ghostBool("exited"), boolT
 		}
@@ -626,6 +639,40 @@ func (e *specEnv) evalCall(s *SpecExpr) (Term, types.Type) {
 	}
 	e.fail("cannot call %s", fn)
 	return Term{}, nil
+}
+
+// nthResult evaluates the idx-th result of a multi-result pure call pkg.F(args).
+func (e *specEnv) nthResult(call *SpecExpr, idx int) (Term, types.Type) {
+	x := e.x
+	if call.Kind != "call" || call.Args[0].Kind != "field" || call.Args[0].Args[0].Kind != "ident" {
+		e.fail("second()/third() need a call pkg.F(args)")
+	}
+	fnE := call.Args[0]
+	p := x.findPkgByName(e.pkg, fnE.Args[0].Name)
+	if p == nil {
+		e.fail("unknown package %s", fnE.Args[0].Name)
+	}
+	o, _ := p.Scope().Lookup(fnE.Name).(*types.Func)
+	if o == nil {
+		e.fail("unknown function %s.%s", fnE.Args[0].Name, fnE.Name)
+	}
+	sig := o.Type().(*types.Signature)
+	if idx >= sig.Results().Len() {
+		e.fail("function %s has no result %d", o.Name(), idx)
+	}
+	var ts []Term
+	for i, a := range call.Args[1:] {
+		v, vt := e.eval(a)
+		if i < sig.Params().Len() {
+			v = e.toType(v, vt, sig.Params().At(i).Type())
+		}
+		ts = append(ts, v)
+	}
+	if extName(o) == "regexp.MatchString" && idx == 1 {
+		ts = ts[:1] // the error depends on the pattern only
+	}
+	rt := sig.Results().At(idx).Type()
+	return x.ctx.App(fmt.Sprintf("%s_r%d", pureName(o), idx), x.sortOf(rt), ts...), rt
 }
 
 func specTypeText(s *SpecExpr) string {
@@ -716,7 +763,7 @@ func (e *specEnv) applyFunc(fn *types.Func, recv *Term, args []*SpecExpr) (Term,
 	rt := sig.Results().At(0).Type()
 	name := pureName(fn)
 	if sig.Results().Len() > 1 {
-		name += "#0"
+		name += "_r0"
 	}
 	return x.ctx.App(name, x.sortOf(rt), ts...), rt
 }
